@@ -1,1 +1,1166 @@
-// placeholder
+//! In-process mock CQL cluster over loopback TCP.
+//!
+//! N mock nodes, each a tokio listener on its own 127.a.b.c alias (all on the
+//! same port, as the driver reuses the control connection's port for peers),
+//! optionally a second "shard-aware" listener. Nodes speak CQL only through
+//! `crate::wire`. Behaviour beyond the handshake / system tables is a
+//! per-check `Handler`. Every frame goes to the shared `EventLog`.
+
+pub mod enc;
+pub mod log;
+
+use crate::wire::frame::{self, Compression, Envelope, FrameHeader};
+use crate::wire::request::{self, BatchStatement, Extensions, Request};
+use crate::wire::response::*;
+use log::{Ev, EventLog};
+use std::collections::{BTreeMap, HashMap, HashSet};
+use std::net::{IpAddr, Ipv4Addr, SocketAddr};
+use std::sync::atomic::{AtomicBool, AtomicU64, AtomicUsize, Ordering};
+use std::sync::{Arc, Mutex, RwLock};
+use std::time::Duration;
+use tokio::io::AsyncWriteExt;
+use tokio::net::{TcpListener, TcpStream};
+use tokio::sync::{mpsc, watch};
+use uuid::Uuid;
+
+pub const MAIN_PORT: u16 = 19042;
+pub const SHARD_AWARE_PORT: u16 = 19142;
+
+// ---------------------------------------------------------------------------
+// Specs
+// ---------------------------------------------------------------------------
+
+#[derive(Debug, Clone, Copy, PartialEq, Eq)]
+pub struct ShardSpec {
+    pub nr_shards: u16,
+    pub msb_ignore: u8,
+    pub shard_aware_port: bool,
+}
+
+#[derive(Debug, Clone, Copy, PartialEq, Eq, Default)]
+pub struct Features {
+    pub metadata_id: bool,
+    pub tablets: bool,
+    pub lwt_mark: Option<u32>,
+    pub rate_limit_code: Option<i32>,
+}
+
+#[derive(Debug, Clone)]
+pub struct NodeSpec {
+    pub dc: Option<String>,
+    pub rack: Option<String>,
+    pub tokens: Vec<i64>,
+    pub sharding: Option<ShardSpec>,
+    pub features: Features,
+}
+
+impl NodeSpec {
+    pub fn simple(dc: &str, rack: &str, tokens: Vec<i64>) -> Self {
+        Self { dc: Some(dc.into()), rack: Some(rack.into()), tokens, sharding: None, features: Features::default() }
+    }
+}
+
+#[derive(Debug, Clone)]
+pub struct ColumnDef {
+    pub name: String,
+    /// "partition_key" | "clustering" | "regular" | "static"
+    pub kind: String,
+    pub position: i32,
+    /// CQL type string as in system_schema.columns.type
+    pub typ: String,
+}
+
+#[derive(Debug, Clone)]
+pub struct TableDef {
+    pub name: String,
+    pub columns: Vec<ColumnDef>,
+    pub partitioner: Option<String>,
+}
+
+#[derive(Debug, Clone)]
+pub struct KeyspaceDef {
+    pub name: String,
+    /// replication map as in system_schema.keyspaces ("class" → ..., "replication_factor" / dc → rf)
+    pub replication: BTreeMap<String, String>,
+    /// Some(n): listed in scylla_keyspaces with initial_tablets = n (tablet-based)
+    pub initial_tablets: Option<i32>,
+    pub tables: Vec<TableDef>,
+}
+
+impl KeyspaceDef {
+    pub fn simple(name: &str, rf: usize) -> Self {
+        let mut r = BTreeMap::new();
+        r.insert("class".into(), "org.apache.cassandra.locator.SimpleStrategy".into());
+        r.insert("replication_factor".into(), rf.to_string());
+        Self { name: name.into(), replication: r, initial_tablets: None, tables: vec![] }
+    }
+    pub fn nts(name: &str, dcs: &[(&str, usize)]) -> Self {
+        let mut r = BTreeMap::new();
+        r.insert("class".into(), "org.apache.cassandra.locator.NetworkTopologyStrategy".into());
+        for (dc, rf) in dcs {
+            r.insert((*dc).into(), rf.to_string());
+        }
+        Self { name: name.into(), replication: r, initial_tablets: None, tables: vec![] }
+    }
+    pub fn with_table(mut self, t: TableDef) -> Self {
+        self.tables.push(t);
+        self
+    }
+}
+
+impl TableDef {
+    /// table with partition key columns `pk` (name, type) and regular columns
+    pub fn new(name: &str, pk: &[(&str, &str)], regular: &[(&str, &str)]) -> Self {
+        let mut columns = Vec::new();
+        for (i, (n, t)) in pk.iter().enumerate() {
+            columns.push(ColumnDef { name: (*n).into(), kind: "partition_key".into(), position: i as i32, typ: (*t).into() });
+        }
+        for (n, t) in regular {
+            columns.push(ColumnDef { name: (*n).into(), kind: "regular".into(), position: -1, typ: (*t).into() });
+        }
+        Self { name: name.into(), columns, partitioner: None }
+    }
+}
+
+#[derive(Debug, Clone, Default)]
+pub struct ClusterSpec {
+    pub nodes: Vec<NodeSpec>,
+    pub keyspaces: Vec<KeyspaceDef>,
+    pub cluster_name: String,
+}
+
+/// A prepared statement as a node knows it.
+#[derive(Debug, Clone, PartialEq, Eq)]
+pub struct StatementDef {
+    pub query: String,
+    pub id: Vec<u8>,
+    pub bind: Vec<ColSpec>,
+    pub pk_indexes: Vec<u16>,
+    pub result: Vec<ColSpec>,
+    pub result_metadata_id: Option<Vec<u8>>,
+    /// set the negotiated LWT mark in the PREPARED flags
+    pub lwt: bool,
+    /// answer PREPARE with NO_METADATA result metadata
+    pub prepare_without_result_metadata: bool,
+}
+
+impl StatementDef {
+    pub fn new(query: &str, id: &[u8]) -> Self {
+        Self {
+            query: query.into(),
+            id: id.to_vec(),
+            bind: vec![],
+            pk_indexes: vec![],
+            result: vec![],
+            result_metadata_id: None,
+            lwt: false,
+            prepare_without_result_metadata: false,
+        }
+    }
+}
+
+// ---------------------------------------------------------------------------
+// Runtime structures
+// ---------------------------------------------------------------------------
+
+#[derive(Debug, Clone, Copy, PartialEq, Eq)]
+pub enum CloseHow {
+    /// orderly shutdown (FIN)
+    Fin,
+    /// SO_LINGER 0 + close (RST)
+    Rst,
+    /// stop reading and writing, keep the socket open
+    Stall,
+}
+
+#[derive(Debug, Clone, Copy)]
+pub struct Cut {
+    /// cut when this many bytes of the response stream (counted from arming) were written
+    pub after: usize,
+    pub how: CloseHow,
+}
+
+enum Cmd {
+    Frame { bytes: Vec<u8>, stream: i16, opcode: u8, tag: Option<u64> },
+    Close(CloseHow),
+}
+
+pub struct Conn {
+    pub id: u64,
+    pub node: usize,
+    pub src: SocketAddr,
+    pub shard: Option<u16>,
+    pub via_shard_aware_port: bool,
+    pub compression: Mutex<Option<Compression>>,
+    pub ext: Mutex<Extensions>,
+    pub startup_options: Mutex<BTreeMap<String, String>>,
+    pub keyspace: Mutex<Option<String>>,
+    pub registered: AtomicBool,
+    pub started: AtomicBool,
+    pub requests_seen: AtomicU64,
+    pub outstanding: Mutex<HashSet<i16>>,
+    pub alive: AtomicBool,
+    tx: mpsc::UnboundedSender<Cmd>,
+    cut: Mutex<Option<Cut>>,
+    resp_bytes: AtomicUsize,
+    closed: watch::Sender<bool>,
+}
+
+impl Conn {
+    /// Arms a cut of the response stream `after` bytes from now.
+    pub fn arm_cut(&self, after: usize, how: CloseHow) {
+        self.resp_bytes.store(0, Ordering::SeqCst);
+        *self.cut.lock().unwrap() = Some(Cut { after, how });
+    }
+    pub fn close(&self, how: CloseHow) {
+        let _ = self.tx.send(Cmd::Close(how));
+    }
+    pub fn send_raw(&self, bytes: Vec<u8>) {
+        let _ = self.tx.send(Cmd::Frame { bytes, stream: -32768, opcode: 0xff, tag: None });
+    }
+    pub fn compression(&self) -> Option<Compression> {
+        *self.compression.lock().unwrap()
+    }
+    pub fn keyspace(&self) -> Option<String> {
+        self.keyspace.lock().unwrap().clone()
+    }
+    /// Sends a complete response frame on `stream`.
+    pub fn send_response(&self, stream: i16, env: &Envelope, resp: &Response, tag: Option<u64>) {
+        let body = resp.encode_body();
+        let started = self.started.load(Ordering::SeqCst);
+        let comp = if started { self.compression() } else { None };
+        let bytes = frame::response_frame(stream, resp.opcode(), env, &body, comp);
+        let _ = self.tx.send(Cmd::Frame { bytes, stream, opcode: resp.opcode(), tag });
+    }
+    pub fn push_event(&self, ev: &Event) {
+        self.send_response(-1, &Envelope::default(), &Response::Event(ev.clone()), None);
+    }
+}
+
+pub struct MockNode {
+    pub idx: usize,
+    pub host_id: Uuid,
+    pub ip: Ipv4Addr,
+    pub spec: RwLock<NodeSpec>,
+    pub up: AtomicBool,
+    pub prepared: Mutex<HashMap<Vec<u8>, Arc<StatementDef>>>,
+    pub conns: Mutex<Vec<Arc<Conn>>>,
+    /// number of PREPARE / non-system request frames seen (cheap counters for checks)
+    pub prepares_seen: AtomicU64,
+    stop: Mutex<Option<watch::Sender<bool>>>,
+}
+
+impl MockNode {
+    pub fn addr(&self) -> SocketAddr {
+        SocketAddr::new(IpAddr::V4(self.ip), MAIN_PORT)
+    }
+    pub fn live_conns(&self) -> Vec<Arc<Conn>> {
+        self.conns.lock().unwrap().iter().filter(|c| c.alive.load(Ordering::SeqCst)).cloned().collect()
+    }
+    /// forget prepared statements (server-side eviction)
+    pub fn evict(&self, id: &[u8]) -> bool {
+        self.prepared.lock().unwrap().remove(id).is_some()
+    }
+    pub fn evict_all_user(&self) {
+        self.prepared.lock().unwrap().retain(|_, d| is_system_query(&d.query));
+    }
+    pub fn knows(&self, id: &[u8]) -> bool {
+        self.prepared.lock().unwrap().contains_key(id)
+    }
+    pub fn sharding(&self) -> Option<ShardSpec> {
+        self.spec.read().unwrap().sharding
+    }
+}
+
+/// What a check plugs in. All methods have benign defaults.
+pub trait Handler: Send + Sync + 'static {
+    /// Called first for EVERY request frame after the handshake (also system
+    /// queries). Return `Some(rq)` to let normal processing continue, `None` if the
+    /// handler took over (it answers, delays, withholds or kills as it likes).
+    fn intercept(&self, rq: Rq) -> Option<Rq> {
+        Some(rq)
+    }
+    /// PREPARE of a non-system statement: how this node should know it.
+    /// `None` ⇒ a parameterless statement with no result columns and a stable id.
+    fn statement(&self, _node: &MockNode, _query: &str) -> Option<StatementDef> {
+        None
+    }
+    /// QUERY / EXECUTE (known id) / BATCH (known ids) of non-system statements.
+    fn on_request(&self, rq: Rq) {
+        rq.void();
+    }
+    /// `USE <ks>`; default acknowledges at once.
+    fn on_use(&self, rq: Rq, keyspace: String) {
+        rq.ack_keyspace(&keyspace);
+    }
+}
+
+pub struct DefaultHandler;
+impl Handler for DefaultHandler {}
+
+pub struct Topology {
+    pub keyspaces: Vec<KeyspaceDef>,
+    pub cluster_name: String,
+    /// nodes visible in system.local / system.peers (indices into `nodes`)
+    pub members: Vec<usize>,
+}
+
+pub struct ClusterInner {
+    pub log: Arc<EventLog>,
+    pub nodes: RwLock<Vec<Arc<MockNode>>>,
+    pub topo: RwLock<Topology>,
+    pub handler: RwLock<Arc<dyn Handler>>,
+    stmt_ids: Mutex<HashMap<String, Vec<u8>>>,
+    conn_ids: AtomicU64,
+    net: (u8, u8),
+    pub schema_version: RwLock<Uuid>,
+}
+
+#[derive(Clone)]
+pub struct MockCluster {
+    pub inner: Arc<ClusterInner>,
+}
+
+/// One request in flight at a node, handed to the `Handler`.
+pub struct Rq {
+    pub cluster: Arc<ClusterInner>,
+    pub node: Arc<MockNode>,
+    pub conn: Arc<Conn>,
+    pub stream: i16,
+    pub opcode: u8,
+    pub tracing: bool,
+    pub request: Arc<Request>,
+    /// for EXECUTE: the statement the node knows under that id
+    pub statement: Option<Arc<StatementDef>>,
+    /// sequence number of the Recv event
+    pub seq: u64,
+}
+
+impl Rq {
+    pub fn reply_env_tag(&self, env: &Envelope, resp: &Response, tag: Option<u64>) {
+        self.conn.outstanding.lock().unwrap().remove(&self.stream);
+        self.conn.send_response(self.stream, env, resp, tag);
+    }
+    pub fn reply(&self, resp: &Response) {
+        self.reply_env_tag(&Envelope::default(), resp, None);
+    }
+    pub fn reply_env(&self, env: &Envelope, resp: &Response) {
+        self.reply_env_tag(env, resp, None);
+    }
+    pub fn void(&self) {
+        self.reply(&Response::Result(ResultBody::Void));
+    }
+    pub fn error(&self, e: ErrorBody) {
+        self.reply(&Response::Error(e));
+    }
+    pub fn rows(&self, columns: Vec<ColSpec>, rows: Vec<Row>, paging_state: Option<Vec<u8>>) {
+        let metadata = ResultMetadata { columns, paging_state, no_metadata: false, global_spec: true, new_metadata_id: None };
+        self.reply(&Response::Result(ResultBody::Rows { metadata, rows }));
+    }
+    /// Answers with rows honouring the request's skip-metadata flag and (when the
+    /// SCYLLA_USE_METADATA_ID extension is on) the presented result-metadata id.
+    pub fn rows_for(&self, def: &StatementDef, rows: Vec<Row>, paging_state: Option<Vec<u8>>) {
+        let (skip, presented) = match &*self.request {
+            Request::Execute { params, result_metadata_id, .. } => (params.skip_metadata, result_metadata_id.clone()),
+            Request::Query { params, .. } => (params.skip_metadata, None),
+            _ => (false, None),
+        };
+        let ext = *self.conn.ext.lock().unwrap();
+        let mut md = ResultMetadata { columns: def.result.clone(), paging_state, no_metadata: false, global_spec: true, new_metadata_id: None };
+        if skip {
+            if ext.metadata_id && presented.is_some() && presented != def.result_metadata_id {
+                // the client's idea of the result metadata is stale: send the new one with its id
+                md.new_metadata_id = def.result_metadata_id.clone();
+            } else {
+                md.no_metadata = true;
+            }
+        }
+        self.reply(&Response::Result(ResultBody::Rows { metadata: md, rows }));
+    }
+    pub fn ack_keyspace(&self, ks: &str) {
+        // the acknowledgement becomes true once the response is written: record first (logical order)
+        *self.conn.keyspace.lock().unwrap() = Some(ks.to_string());
+        self.cluster.log.push(Ev::KeyspaceAck { node: self.node.idx, conn: self.conn.id, keyspace: ks.to_string() });
+        self.reply(&Response::Result(ResultBody::SetKeyspace(ks.to_string())));
+    }
+    pub fn query_text(&self) -> Option<&str> {
+        match &*self.request {
+            Request::Query { query, .. } | Request::Prepare { query } => Some(query),
+            Request::Execute { .. } => self.statement.as_ref().map(|s| s.query.as_str()),
+            _ => None,
+        }
+    }
+}
+
+pub fn is_system_query(q: &str) -> bool {
+    let l = q.trim_start().to_ascii_lowercase();
+    l.starts_with("select") && (l.contains(" from system.") || l.contains(" from system_schema."))
+}
+
+/// `USE ks` / `USE "ks"` → (name, quoted)
+pub fn parse_use(q: &str) -> Option<(String, bool)> {
+    let t = q.trim();
+    if t.len() < 4 || !t[..3].eq_ignore_ascii_case("use") || !t.as_bytes()[3].is_ascii_whitespace() {
+        return None;
+    }
+    let rest = t[3..].trim().trim_end_matches(';').trim();
+    if rest.len() >= 2 && rest.starts_with('"') && rest.ends_with('"') {
+        Some((rest[1..rest.len() - 1].to_string(), true))
+    } else {
+        Some((rest.to_string(), false))
+    }
+}
+
+static NET_COUNTER: AtomicUsize = AtomicUsize::new(0);
+
+impl MockCluster {
+    /// Starts listeners for all nodes. Must run inside a tokio runtime.
+    pub async fn start(spec: ClusterSpec, handler: Arc<dyn Handler>) -> MockCluster {
+        Self::start_with_log(spec, handler, EventLog::new()).await
+    }
+
+    pub async fn start_with_log(spec: ClusterSpec, handler: Arc<dyn Handler>, log: Arc<EventLog>) -> MockCluster {
+        let pid = std::process::id() as usize;
+        for attempt in 0..400 {
+            let k = NET_COUNTER.fetch_add(1, Ordering::SeqCst) + attempt * 7;
+            let a = 10 + ((pid + k / 250) % 200) as u8;
+            let b = (k % 250) as u8 + 1;
+            // probe: can we bind the first node's address?
+            let probe = SocketAddr::new(IpAddr::V4(Ipv4Addr::new(127, a, b, 1)), MAIN_PORT);
+            match TcpListener::bind(probe).await {
+                Ok(l) => drop(l),
+                Err(_) => continue,
+            }
+            let inner = Arc::new(ClusterInner {
+                log: log.clone(),
+                nodes: RwLock::new(Vec::new()),
+                topo: RwLock::new(Topology {
+                    keyspaces: spec.keyspaces.clone(),
+                    cluster_name: if spec.cluster_name.is_empty() { "mock".into() } else { spec.cluster_name.clone() },
+                    members: Vec::new(),
+                }),
+                handler: RwLock::new(handler.clone()),
+                stmt_ids: Mutex::new(HashMap::new()),
+                conn_ids: AtomicU64::new(1),
+                net: (a, b),
+                schema_version: RwLock::new(Uuid::from_u128(0x5c4e_ad00_0000_0000_0000_0000_0000_0001)),
+            });
+            let c = MockCluster { inner };
+            let mut ok = true;
+            for ns in &spec.nodes {
+                if c.add_node_inner(ns.clone(), true).await.is_none() {
+                    ok = false;
+                    break;
+                }
+            }
+            if ok {
+                return c;
+            }
+            c.shutdown();
+        }
+        panic!("mock cluster: could not bind loopback addresses");
+    }
+
+    pub fn log(&self) -> &Arc<EventLog> {
+        &self.inner.log
+    }
+    pub fn node(&self, i: usize) -> Arc<MockNode> {
+        self.inner.nodes.read().unwrap()[i].clone()
+    }
+    pub fn nodes(&self) -> Vec<Arc<MockNode>> {
+        self.inner.nodes.read().unwrap().clone()
+    }
+    pub fn contact_point(&self) -> SocketAddr {
+        self.node(0).addr()
+    }
+    pub fn set_handler(&self, h: Arc<dyn Handler>) {
+        *self.inner.handler.write().unwrap() = h;
+    }
+    pub fn node_by_ip(&self, ip: IpAddr) -> Option<Arc<MockNode>> {
+        self.nodes().into_iter().find(|n| IpAddr::V4(n.ip) == ip)
+    }
+    pub fn node_by_host_id(&self, id: Uuid) -> Option<Arc<MockNode>> {
+        self.nodes().into_iter().find(|n| n.host_id == id)
+    }
+
+    async fn add_node_inner(&self, spec: NodeSpec, member: bool) -> Option<Arc<MockNode>> {
+        let idx = self.inner.nodes.read().unwrap().len();
+        let (a, b) = self.inner.net;
+        let ip = Ipv4Addr::new(127, a, b, (idx + 1) as u8);
+        let node = Arc::new(MockNode {
+            idx,
+            host_id: Uuid::from_u128(0xabcd_0000_0000_0000_0000_0000_0000_0000u128 | ((a as u128) << 24) | ((b as u128) << 16) | (idx as u128 + 1)),
+            ip,
+            spec: RwLock::new(spec),
+            up: AtomicBool::new(false),
+            prepared: Mutex::new(HashMap::new()),
+            conns: Mutex::new(Vec::new()),
+            prepares_seen: AtomicU64::new(0),
+            stop: Mutex::new(None),
+        });
+        self.inner.nodes.write().unwrap().push(node.clone());
+        if member {
+            self.inner.topo.write().unwrap().members.push(idx);
+        }
+        if !self.start_node(idx).await {
+            return None;
+        }
+        Some(node)
+    }
+
+    /// Adds a node (listener up); `member=false` keeps it out of system.peers until `set_members`.
+    pub async fn add_node(&self, spec: NodeSpec, member: bool) -> Arc<MockNode> {
+        self.add_node_inner(spec, member).await.expect("bind new mock node")
+    }
+
+    pub fn set_members(&self, members: Vec<usize>) {
+        self.inner.topo.write().unwrap().members = members;
+    }
+    pub fn set_keyspaces(&self, ks: Vec<KeyspaceDef>) {
+        self.inner.topo.write().unwrap().keyspaces = ks;
+    }
+
+    /// (Re)starts the listeners of node `idx`.
+    pub async fn start_node(&self, idx: usize) -> bool {
+        let node = self.node(idx);
+        if node.up.load(Ordering::SeqCst) {
+            return true;
+        }
+        let main = match TcpListener::bind(SocketAddr::new(IpAddr::V4(node.ip), MAIN_PORT)).await {
+            Ok(l) => l,
+            Err(_) => return false,
+        };
+        let sa = if node.sharding().map(|s| s.shard_aware_port).unwrap_or(false) {
+            match TcpListener::bind(SocketAddr::new(IpAddr::V4(node.ip), SHARD_AWARE_PORT)).await {
+                Ok(l) => Some(l),
+                Err(_) => return false,
+            }
+        } else {
+            None
+        };
+        let (stop_tx, stop_rx) = watch::channel(false);
+        *node.stop.lock().unwrap() = Some(stop_tx);
+        node.up.store(true, Ordering::SeqCst);
+        for (l, shard_aware) in [(Some(main), false), (sa, true)] {
+            let Some(l) = l else { continue };
+            let inner = self.inner.clone();
+            let node = node.clone();
+            let mut stop_rx = stop_rx.clone();
+            tokio::spawn(async move {
+                loop {
+                    tokio::select! {
+                        _ = stop_rx.changed() => break,
+                        acc = l.accept() => {
+                            let Ok((sock, src)) = acc else { break };
+                            let _ = sock.set_nodelay(true);
+                            let inner = inner.clone();
+                            let node = node.clone();
+                            tokio::spawn(serve_conn(inner, node, sock, src, shard_aware));
+                        }
+                    }
+                }
+            });
+        }
+        true
+    }
+
+    /// Stops listening on node `idx` and closes all its connections.
+    pub fn stop_node(&self, idx: usize, how: CloseHow) {
+        let node = self.node(idx);
+        node.up.store(false, Ordering::SeqCst);
+        if let Some(s) = node.stop.lock().unwrap().take() {
+            let _ = s.send(true);
+        }
+        self.inner.log.push(Ev::Fault { node: idx, conn: None, kind: format!("node-down:{how:?}"), at: 0 });
+        for c in node.live_conns() {
+            c.close(how);
+        }
+    }
+
+    pub fn kill_connections(&self, idx: usize, how: CloseHow) {
+        for c in self.node(idx).live_conns() {
+            c.close(how);
+        }
+    }
+
+    /// Sends an event frame to every connection that REGISTERed.
+    pub fn push_event(&self, ev: &Event) {
+        for n in self.nodes() {
+            for c in n.live_conns() {
+                if c.registered.load(Ordering::SeqCst) {
+                    c.push_event(ev);
+                }
+            }
+        }
+    }
+
+    pub fn shutdown(&self) {
+        for n in self.nodes() {
+            n.up.store(false, Ordering::SeqCst);
+            if let Some(s) = n.stop.lock().unwrap().take() {
+                let _ = s.send(true);
+            }
+            for c in n.live_conns() {
+                c.close(CloseHow::Rst);
+            }
+        }
+    }
+
+    /// Total live connections per node that finished the handshake.
+    pub fn established(&self, idx: usize) -> Vec<Arc<Conn>> {
+        self.node(idx).live_conns().into_iter().filter(|c| c.started.load(Ordering::SeqCst)).collect()
+    }
+
+    /// Event-driven wait: until `pred` holds, polling the log counter (no verdict depends on it).
+    pub async fn wait_until(&self, max: Duration, mut pred: impl FnMut() -> bool) -> bool {
+        let t0 = std::time::Instant::now();
+        loop {
+            if pred() {
+                return true;
+            }
+            if t0.elapsed() > max {
+                return false;
+            }
+            tokio::time::sleep(Duration::from_millis(2)).await;
+        }
+    }
+}
+
+impl ClusterInner {
+    /// Stable, collision-free prepared id per statement text (same on all nodes, like MD5 on a real server).
+    pub fn stmt_id(&self, query: &str) -> Vec<u8> {
+        let mut g = self.stmt_ids.lock().unwrap();
+        let n = g.len() as u64 + 1;
+        g.entry(query.to_string())
+            .or_insert_with(|| {
+                let mut id = n.to_be_bytes().to_vec();
+                id.extend_from_slice(&crate::fw::hash_str(query).to_be_bytes());
+                id
+            })
+            .clone()
+    }
+    fn handler(&self) -> Arc<dyn Handler> {
+        self.handler.read().unwrap().clone()
+    }
+}
+
+// ---------------------------------------------------------------------------
+// Connection service
+// ---------------------------------------------------------------------------
+
+fn supported_options(node: &MockNode, shard: Option<u16>) -> BTreeMap<String, Vec<String>> {
+    let spec = node.spec.read().unwrap();
+    let mut m = BTreeMap::new();
+    m.insert("CQL_VERSION".to_string(), vec!["3.0.0".to_string()]);
+    m.insert("COMPRESSION".to_string(), vec!["lz4".to_string(), "snappy".to_string()]);
+    if let (Some(sh), Some(s)) = (spec.sharding, shard) {
+        m.insert("SCYLLA_SHARD".into(), vec![s.to_string()]);
+        m.insert("SCYLLA_NR_SHARDS".into(), vec![sh.nr_shards.to_string()]);
+        m.insert("SCYLLA_SHARDING_IGNORE_MSB".into(), vec![sh.msb_ignore.to_string()]);
+        m.insert("SCYLLA_PARTITIONER".into(), vec!["org.apache.cassandra.dht.Murmur3Partitioner".into()]);
+        m.insert("SCYLLA_SHARDING_ALGORITHM".into(), vec!["biased-token-round-robin".into()]);
+        if sh.shard_aware_port {
+            m.insert("SCYLLA_SHARD_AWARE_PORT".into(), vec![SHARD_AWARE_PORT.to_string()]);
+        }
+    }
+    let f = spec.features;
+    if f.metadata_id {
+        m.insert("SCYLLA_USE_METADATA_ID".into(), vec![]);
+    }
+    if f.tablets {
+        m.insert("TABLETS_ROUTING_V1".into(), vec![]);
+    }
+    if let Some(mask) = f.lwt_mark {
+        m.insert("SCYLLA_LWT_ADD_METADATA_MARK".into(), vec![format!("LWT_OPTIMIZATION_META_BIT_MASK={mask}")]);
+    }
+    if let Some(code) = f.rate_limit_code {
+        m.insert("SCYLLA_RATE_LIMIT_ERROR".into(), vec![format!("ERROR_CODE={code}")]);
+    }
+    m
+}
+
+async fn serve_conn(inner: Arc<ClusterInner>, node: Arc<MockNode>, sock: TcpStream, src: SocketAddr, shard_aware: bool) {
+    // shard assignment like ScyllaDB: by source port on the shard-aware port, else least loaded
+    let shard = node.sharding().map(|sh| {
+        if shard_aware {
+            src.port() % sh.nr_shards
+        } else {
+            let mut load = vec![0usize; sh.nr_shards as usize];
+            for c in node.live_conns() {
+                if let Some(s) = c.shard {
+                    load[s as usize] += 1;
+                }
+            }
+            load.iter().enumerate().min_by_key(|(_, l)| **l).map(|(i, _)| i as u16).unwrap_or(0)
+        }
+    });
+    let (tx, mut rx) = mpsc::unbounded_channel::<Cmd>();
+    let (closed_tx, mut closed_rx) = watch::channel(false);
+    let conn = Arc::new(Conn {
+        id: inner.conn_ids.fetch_add(1, Ordering::SeqCst),
+        node: node.idx,
+        src,
+        shard,
+        via_shard_aware_port: shard_aware,
+        compression: Mutex::new(None),
+        ext: Mutex::new(Extensions::default()),
+        startup_options: Mutex::new(BTreeMap::new()),
+        keyspace: Mutex::new(None),
+        registered: AtomicBool::new(false),
+        started: AtomicBool::new(false),
+        requests_seen: AtomicU64::new(0),
+        outstanding: Mutex::new(HashSet::new()),
+        alive: AtomicBool::new(true),
+        tx,
+        cut: Mutex::new(None),
+        resp_bytes: AtomicUsize::new(0),
+        closed: closed_tx,
+    });
+    node.conns.lock().unwrap().push(conn.clone());
+    inner.log.push(Ev::Accept { node: node.idx, conn: conn.id, src_port: src.port(), shard, shard_aware_port: shard_aware });
+
+    let (mut rd, mut wr) = sock.into_split();
+
+    // writer task
+    let wconn = conn.clone();
+    let wlog = inner.log.clone();
+    let writer = tokio::spawn(async move {
+        let mut stalled = false;
+        while let Some(cmd) = rx.recv().await {
+            if stalled {
+                continue;
+            }
+            match cmd {
+                Cmd::Frame { bytes, stream, opcode, tag } => {
+                    let cut = *wconn.cut.lock().unwrap();
+                    let sofar = wconn.resp_bytes.load(Ordering::SeqCst);
+                    if let Some(c) = cut {
+                        if sofar + bytes.len() > c.after {
+                            let k = c.after.saturating_sub(sofar);
+                            wlog.push(Ev::Send { node: wconn.node, conn: wconn.id, stream, opcode, bytes: bytes.len(), written: k, tag });
+                            wlog.push(Ev::Fault { node: wconn.node, conn: Some(wconn.id), kind: format!("cut:{:?}", c.how), at: c.after });
+                            let _ = wr.write_all(&bytes[..k]).await;
+                            let _ = wr.flush().await;
+                            match c.how {
+                                CloseHow::Stall => {
+                                    stalled = true;
+                                    continue;
+                                }
+                                how => return Some((wr, how)),
+                            }
+                        }
+                    }
+                    wlog.push(Ev::Send { node: wconn.node, conn: wconn.id, stream, opcode, bytes: bytes.len(), written: bytes.len(), tag });
+                    wconn.resp_bytes.fetch_add(bytes.len(), Ordering::SeqCst);
+                    if wr.write_all(&bytes).await.is_err() {
+                        return Some((wr, CloseHow::Fin));
+                    }
+                }
+                Cmd::Close(CloseHow::Stall) => {
+                    wlog.push(Ev::Fault { node: wconn.node, conn: Some(wconn.id), kind: "stall".into(), at: 0 });
+                    stalled = true;
+                }
+                Cmd::Close(how) => return Some((wr, how)),
+            }
+        }
+        None
+    });
+
+    // reader loop
+    let rinner = inner.clone();
+    let rnode = node.clone();
+    let rconn = conn.clone();
+    let reader = async move {
+        loop {
+            let fr = tokio::select! {
+                _ = closed_rx.changed() => break "script",
+                fr = frame::read_frame(&mut rd, 256 << 20) => fr,
+            };
+            let (h, body) = match fr {
+                Ok(Some(x)) => x,
+                Ok(None) => break "peer",
+                Err(_) => break "peer-error",
+            };
+            handle_frame(&rinner, &rnode, &rconn, h, body);
+        }
+    };
+
+    tokio::pin!(reader);
+    let mut writer = writer;
+    let by;
+    tokio::select! {
+        b = &mut reader => {
+            by = b;
+            // peer went away (or script): stop the writer
+            writer.abort();
+        }
+        w = &mut writer => {
+            by = "script";
+            if let Ok(Some((wr, how))) = w {
+                match how {
+                    CloseHow::Rst => {
+                        let _ = socket2::SockRef::from(wr.as_ref()).set_linger(Some(Duration::ZERO));
+                        wr.forget();
+                    }
+                    _ => {
+                        let mut wr = wr;
+                        let _ = wr.shutdown().await;
+                    }
+                }
+            }
+        }
+    }
+    let _ = conn.closed.send(true);
+    conn.alive.store(false, Ordering::SeqCst);
+    inner.log.push(Ev::Close { node: node.idx, conn: conn.id, by });
+    // dropping `reader` (and with it the read half) closes the socket; with linger 0 that is an RST
+}
+
+fn handle_frame(inner: &Arc<ClusterInner>, node: &Arc<MockNode>, conn: &Arc<Conn>, h: FrameHeader, body: Vec<u8>) {
+    let violation = |what: String| {
+        inner.log.push(Ev::ProtocolViolation { node: node.idx, conn: conn.id, what });
+    };
+    if h.version != 0x04 {
+        violation(format!("request frame with version byte {:#x}", h.version));
+        conn.send_response(h.stream, &Envelope::default(), &Response::Error(ErrorBody::simple(errcode::PROTOCOL_ERROR, "bad version")), None);
+        return;
+    }
+    let body = match frame::request_body(&h, &body, conn.compression()) {
+        Ok(b) => b,
+        Err(e) => {
+            violation(format!("undecodable request body: {}", e.0));
+            return;
+        }
+    };
+    let ext = *conn.ext.lock().unwrap();
+    let req = match request::parse_request(h.opcode, &body, &ext) {
+        Ok(r) => Arc::new(r),
+        Err(e) => {
+            violation(format!("malformed request (opcode {:#x}): {}", h.opcode, e.0));
+            conn.send_response(h.stream, &Envelope::default(), &Response::Error(ErrorBody::simple(errcode::PROTOCOL_ERROR, "malformed")), None);
+            return;
+        }
+    };
+    if h.stream < 0 {
+        violation(format!("request on negative stream {}", h.stream));
+    }
+    // C02 monitor (b): a stream id must not be reused while the server still owes an answer on it
+    if !conn.outstanding.lock().unwrap().insert(h.stream) {
+        violation(format!("stream {} reused while a request on it is still unanswered by the server", h.stream));
+    }
+    conn.requests_seen.fetch_add(1, Ordering::SeqCst);
+    let seq = inner.log.push(Ev::Recv {
+        node: node.idx,
+        conn: conn.id,
+        stream: h.stream,
+        opcode: h.opcode,
+        shard: conn.shard,
+        keyspace: conn.keyspace(),
+        request: req.clone(),
+        op: None,
+    });
+    let mut rq = Rq {
+        cluster: inner.clone(),
+        node: node.clone(),
+        conn: conn.clone(),
+        stream: h.stream,
+        opcode: h.opcode,
+        tracing: h.flags & frame::FLAG_TRACING != 0,
+        request: req.clone(),
+        statement: None,
+        seq,
+    };
+    // handshake frames are always served by the node itself
+    match &*req {
+        Request::Options => {
+            rq.reply(&Response::Supported(supported_options(node, conn.shard)));
+            return;
+        }
+        Request::Startup { options } => {
+            *conn.startup_options.lock().unwrap() = options.clone();
+            let comp = match options.get("COMPRESSION").map(|s| s.as_str()) {
+                Some("lz4") => Some(Compression::Lz4),
+                Some("snappy") => Some(Compression::Snappy),
+                _ => None,
+            };
+            conn.ext.lock().unwrap().metadata_id = options.contains_key("SCYLLA_USE_METADATA_ID");
+            // READY itself is sent uncompressed (compression applies to the frames after STARTUP)
+            rq.reply(&Response::Ready);
+            *conn.compression.lock().unwrap() = comp;
+            conn.started.store(true, Ordering::SeqCst);
+            return;
+        }
+        Request::Register { .. } => {
+            conn.registered.store(true, Ordering::SeqCst);
+            rq.reply(&Response::Ready);
+            return;
+        }
+        Request::AuthResponse { .. } => {
+            rq.reply(&Response::AuthSuccess(None));
+            return;
+        }
+        _ => {}
+    }
+    if let Request::Execute { id, .. } = &*req {
+        rq.statement = node.prepared.lock().unwrap().get(id).cloned();
+    }
+    let handler = inner.handler();
+    let Some(rq) = handler.intercept(rq) else { return };
+    match &*req {
+        Request::Prepare { query } => {
+            node.prepares_seen.fetch_add(1, Ordering::SeqCst);
+            let def = if is_system_query(query) {
+                system_statement(inner, query)
+            } else {
+                handler.statement(node, query).unwrap_or_else(|| StatementDef::new(query, &inner.stmt_id(query)))
+            };
+            let def = Arc::new(def);
+            node.prepared.lock().unwrap().insert(def.id.clone(), def.clone());
+            reply_prepared(&rq, &def);
+        }
+        Request::Query { query, params } => {
+            if let Some((ks, _quoted)) = parse_use(query) {
+                handler.on_use(rq, ks);
+            } else if is_system_query(query) {
+                let def = system_statement(inner, query);
+                answer_system(&rq, &def, params.page_size, params.paging_state.as_deref());
+            } else {
+                handler.on_request(rq);
+            }
+        }
+        Request::Execute { id, params, .. } => match rq.statement.clone() {
+            None => rq.error(ErrorBody::unprepared(id)),
+            Some(def) if is_system_query(&def.query) => answer_system(&rq, &def, params.page_size, params.paging_state.as_deref()),
+            Some(_) => handler.on_request(rq),
+        },
+        Request::Batch { statements, .. } => {
+            let unknown = statements.iter().find_map(|s| match s {
+                BatchStatement::Prepared { id, .. } if !node.knows(id) => Some(id.clone()),
+                _ => None,
+            });
+            match unknown {
+                Some(id) => rq.error(ErrorBody::unprepared(&id)),
+                None => handler.on_request(rq),
+            }
+        }
+        _ => rq.error(ErrorBody::simple(errcode::PROTOCOL_ERROR, "unexpected")),
+    }
+}
+
+pub fn reply_prepared(rq: &Rq, def: &StatementDef) {
+    let ext = *rq.conn.ext.lock().unwrap();
+    let lwt_mask = rq.node.spec.read().unwrap().features.lwt_mark;
+    let body = ResultBody::Prepared {
+        id: def.id.clone(),
+        result_metadata_id: if ext.metadata_id { Some(def.result_metadata_id.clone().unwrap_or_else(|| vec![0u8; 16])) } else { None },
+        prepared_metadata: PreparedMetadata {
+            extra_flags: if def.lwt { lwt_mask.unwrap_or(0) as i32 } else { 0 },
+            columns: def.bind.clone(),
+            pk_indexes: def.pk_indexes.clone(),
+            global_spec: true,
+        },
+        result_metadata: ResultMetadata {
+            columns: def.result.clone(),
+            paging_state: None,
+            no_metadata: def.prepare_without_result_metadata,
+            global_spec: true,
+            new_metadata_id: None,
+        },
+    };
+    rq.reply(&Response::Result(body));
+}
+
+// ---------------------------------------------------------------------------
+// System tables
+// ---------------------------------------------------------------------------
+
+fn cs(table: &str, name: &str, t: ColType) -> ColSpec {
+    let (ks, tb) = table.split_once('.').unwrap();
+    ColSpec::new(ks, tb, name, t)
+}
+
+fn system_table_of(query: &str) -> Option<&'static str> {
+    let l = query.to_ascii_lowercase();
+    const TABLES: [&str; 10] = [
+        "system.peers",
+        "system.local",
+        "system_schema.keyspaces",
+        "system_schema.tables",
+        "system_schema.views",
+        "system_schema.columns",
+        "system_schema.types",
+        "system_schema.scylla_tables",
+        "system_schema.scylla_keyspaces",
+        "system.client_routes",
+    ];
+    let from = l.find(" from ")? + 6;
+    let rest = &l[from..];
+    TABLES.iter().copied().find(|t| {
+        rest.starts_with(t) && rest[t.len()..].chars().next().map(|c| !c.is_alphanumeric() && c != '_').unwrap_or(true)
+    })
+}
+
+/// Column list of the SELECT (between "select" and "from"), lower-cased.
+fn selected_columns(query: &str) -> Vec<String> {
+    let l = query.to_ascii_lowercase();
+    let s = l.find("select").map(|i| i + 6).unwrap_or(0);
+    let e = l.find(" from ").unwrap_or(l.len());
+    l[s..e].split(',').map(|c| c.trim().to_string()).filter(|c| !c.is_empty()).collect()
+}
+
+fn system_col_type(table: &str, col: &str) -> ColType {
+    use ColType::*;
+    match (table, col) {
+        (_, "host_id") | (_, "schema_version") => Uuid,
+        (_, "rpc_address") | (_, "peer") | (_, "broadcast_address") | (_, "listen_address") => Inet,
+        (_, "tokens") => Set(Box::new(Text)),
+        (_, "replication") => Map(Box::new(Text), Box::new(Text)),
+        (_, "durable_writes") => Boolean,
+        (_, "position") | (_, "initial_tablets") => Int,
+        (_, "field_names") | (_, "field_types") => List(Box::new(Text)),
+        _ => Text,
+    }
+}
+
+fn system_statement(inner: &ClusterInner, query: &str) -> StatementDef {
+    let table = system_table_of(query).unwrap_or("system.unknown");
+    let cols = selected_columns(query);
+    let mut def = StatementDef::new(query, &inner.stmt_id(query));
+    def.result = cols.iter().map(|c| cs(table, c, system_col_type(table, c))).collect();
+    // `WHERE keyspace_name IN ?` variants carry one bind marker
+    if query.contains('?') {
+        let n = query.matches('?').count();
+        def.bind = (0..n).map(|i| cs(table, &format!("in{i}"), ColType::List(Box::new(ColType::Text)))).collect();
+    }
+    def
+}
+
+fn system_rows(inner: &ClusterInner, node: &MockNode, query: &str) -> Result<Vec<Row>, ErrorBody> {
+    let table = system_table_of(query);
+    let cols = selected_columns(query);
+    let topo = inner.topo.read().unwrap();
+    let nodes = inner.nodes.read().unwrap();
+    let scylla = node.sharding().is_some() || {
+        let f = node.spec.read().unwrap().features;
+        f.metadata_id || f.tablets || f.lwt_mark.is_some() || f.rate_limit_code.is_some()
+    };
+    let node_row = |n: &MockNode| -> Row {
+        let spec = n.spec.read().unwrap();
+        cols.iter()
+            .map(|c| match c.as_str() {
+                "host_id" => Some(enc::uuid(&n.host_id)),
+                "rpc_address" | "peer" | "broadcast_address" | "listen_address" => Some(enc::inet(IpAddr::V4(n.ip))),
+                "data_center" => spec.dc.as_deref().map(enc::text),
+                "rack" => spec.rack.as_deref().map(enc::text),
+                "tokens" => Some(enc::text_list(&spec.tokens.iter().map(|t| t.to_string()).collect::<Vec<_>>())),
+                "cluster_name" => Some(enc::text(&topo.cluster_name)),
+                "schema_version" => Some(enc::uuid(&inner.schema_version.read().unwrap())),
+                "key" => Some(enc::text("local")),
+                _ => None,
+            })
+            .collect()
+    };
+    let rows: Vec<Row> = match table {
+        Some("system.local") => vec![node_row(node)],
+        Some("system.peers") => topo.members.iter().filter(|i| **i != node.idx).map(|i| node_row(&nodes[*i])).collect(),
+        Some("system_schema.keyspaces") => topo
+            .keyspaces
+            .iter()
+            .map(|k| {
+                cols.iter()
+                    .map(|c| match c.as_str() {
+                        "keyspace_name" => Some(enc::text(&k.name)),
+                        "replication" => Some(enc::map(&k.replication.iter().map(|(a, b)| (enc::text(a), enc::text(b))).collect::<Vec<_>>())),
+                        "durable_writes" => Some(enc::boolean(true)),
+                        _ => None,
+                    })
+                    .collect()
+            })
+            .collect(),
+        Some("system_schema.tables") => topo
+            .keyspaces
+            .iter()
+            .flat_map(|k| k.tables.iter().map(move |t| (k, t)))
+            .map(|(k, t)| {
+                cols.iter()
+                    .map(|c| match c.as_str() {
+                        "keyspace_name" => Some(enc::text(&k.name)),
+                        "table_name" => Some(enc::text(&t.name)),
+                        _ => None,
+                    })
+                    .collect()
+            })
+            .collect(),
+        Some("system_schema.columns") => topo
+            .keyspaces
+            .iter()
+            .flat_map(|k| k.tables.iter().flat_map(move |t| t.columns.iter().map(move |c| (k, t, c))))
+            .map(|(k, t, col)| {
+                cols.iter()
+                    .map(|c| match c.as_str() {
+                        "keyspace_name" => Some(enc::text(&k.name)),
+                        "table_name" => Some(enc::text(&t.name)),
+                        "column_name" => Some(enc::text(&col.name)),
+                        "kind" => Some(enc::text(&col.kind)),
+                        "position" => Some(enc::int(col.position)),
+                        "type" => Some(enc::text(&col.typ)),
+                        _ => None,
+                    })
+                    .collect()
+            })
+            .collect(),
+        Some("system_schema.views") | Some("system_schema.types") => vec![],
+        Some("system_schema.scylla_tables") => {
+            if !scylla {
+                return Err(ErrorBody::simple(errcode::INVALID, "unconfigured table scylla_tables"));
+            }
+            topo.keyspaces
+                .iter()
+                .flat_map(|k| k.tables.iter().map(move |t| (k, t)))
+                .map(|(k, t)| {
+                    cols.iter()
+                        .map(|c| match c.as_str() {
+                            "keyspace_name" => Some(enc::text(&k.name)),
+                            "table_name" => Some(enc::text(&t.name)),
+                            "partitioner" => t.partitioner.as_deref().map(enc::text),
+                            _ => None,
+                        })
+                        .collect()
+                })
+                .collect()
+        }
+        Some("system_schema.scylla_keyspaces") => {
+            if !scylla {
+                return Err(ErrorBody::simple(errcode::INVALID, "unconfigured table scylla_keyspaces"));
+            }
+            topo.keyspaces
+                .iter()
+                .map(|k| {
+                    cols.iter()
+                        .map(|c| match c.as_str() {
+                            "keyspace_name" => Some(enc::text(&k.name)),
+                            "initial_tablets" => k.initial_tablets.map(enc::int),
+                            _ => None,
+                        })
+                        .collect()
+                })
+                .collect()
+        }
+        _ => return Err(ErrorBody::simple(errcode::INVALID, "unconfigured table")),
+    };
+    Ok(rows)
+}
+
+/// Serves a system SELECT, paging with an opaque offset as paging state.
+fn answer_system(rq: &Rq, def: &StatementDef, page_size: Option<i32>, paging_state: Option<&[u8]>) {
+    match system_rows(&rq.cluster, &rq.node, &def.query) {
+        Err(e) => rq.error(e),
+        Ok(all) => {
+            let start = paging_state.filter(|p| p.len() == 4).map(|p| u32::from_be_bytes([p[0], p[1], p[2], p[3]]) as usize).unwrap_or(0).min(all.len());
+            let n = page_size.filter(|p| *p > 0).map(|p| p as usize).unwrap_or(usize::MAX);
+            let end = start.saturating_add(n).min(all.len());
+            let next = if end < all.len() { Some((end as u32).to_be_bytes().to_vec()) } else { None };
+            rq.rows_for(def, all[start..end].to_vec(), next);
+        }
+    }
+}
